@@ -230,13 +230,14 @@ structure C04.PMMWF (s : PMM V) : Prop where
 
 /-- **per-source value table**: in a well-formed mapper the record-array row of model `smidx`
 holds, for every local name `f`, exactly the value of the global parameter mapped to that model
-under the alias `f` — the next value of the supplied vector (in declaration order) and `+(j+1)` when
-it is floating, its fixed value and `-(j+1)` when it is fixed — and "not applicable" when no
-parameter is mapped under `f`. The boolean-mask arithmetic of the code never raises. -/
+under the alias `f` — the next value of the supplied vector (in declaration order) and `+(k+1)`,
+`k` = index of that fit parameter among the floating parameters, when it is floating; its fixed value
+and `-(j+1)`, `j` = global index, when it is fixed — and "not applicable" when no parameter is mapped
+under `f`. The boolean-mask arithmetic of the code never raises. -/
 theorem c04_src_table (s : PMM V) (hw : C04.PMMWF s) (g : List V)
     (hg : g.length = s.gps.floatNames.length) (fields : List String) (smidx : Nat)
     (row : List (Option String)) (hrow : s.mpn[smidx]? = some row) :
-    s.srcRow g fields smidx = .ok (smidx, fields.map (fun f => Spec.cell f s.gps.params row 0 g)) := by
+    s.srcRow g fields smidx = .ok (smidx, fields.map (fun f => Spec.cell f s.gps.params row 0 0 g)) := by
   have hmem : row ∈ s.mpn := List.mem_of_getElem? hrow
   have hl := hw.cols row hmem
   have hg' : g.length = (s.gps.params.filter (fun p => !p.isfixed)).length := by
@@ -247,7 +248,7 @@ theorem c04_src_table (s : PMM V) (hw : C04.PMMWF s) (g : List V)
   congr 2
   apply List.map_congr_left
   intro f _
-  exact cell_eq f s.gps.params row 0 g hl hg' (hw.uniq row hmem)
+  exact cell_eq f s.gps.params row 0 0 g hl hg' (hw.uniq row hmem)
 
 /-- the same for the per-model dictionary (`create_model_params_dict`): floating entries first -/
 theorem c04_model_dict (s : PMM V) (hw : C04.PMMWF s) (g : List V)
@@ -261,11 +262,12 @@ theorem c04_model_dict (s : PMM V) (hw : C04.PMMWF s) (g : List V)
   simp only [rowEntries_eq hw.gps row g (hw.cols row hmem) hg, PSet.exMap]
 
 -- non-vacuity: non-source model first, a fixed parameter mapped ahead of a floating one;
--- fields are (gamma, r), the row of source s1 (model 2) holds the supplied value 25 and the fixed 7
+-- fields are (gamma, r), the row of source s1 (model 2) holds the supplied value 25 with gpidx 1 (fit parameter 0,
+-- although its global index is 1) and the fixed 7 with gpidx -1
 example : ((((PMM.create [("d", false), ("s0", true), ("s1", true)] : PMM Int).run
       [.map ⟨"r", 7, none, none, none⟩ (some [2, 0]) .none,
        .map ⟨"g", 2, some 1, some 3, none⟩ (some [1, 2]) (.one "gamma")]).srcParamsRecarray [25]
-      (some [2])).toOption.map (·.2)) = some [(2, [some (25, 2), some (7, -1)])] := by decide
+      (some [2])).toOption.map (·.2)) = some [(2, [some (25, 1), some (7, -1)])] := by decide
 
 theorem C04.mapParamCore_error (s : PMM V) (p : Param V) (names : List String) (mask : List Bool) (e : Err)
     (h : (s.mapParamCore p names mask).2 = .error e) : (s.mapParamCore p names mask).1 = s := by
